@@ -228,6 +228,8 @@ def effective_faults(case):
     np.errstate(all='ignore') a warning-raising operation is just an operation that yields -inf, with all='raise' it is a Python
     exception (FloatingPointError) like any other."""
     es = case.get('caller_errstate')
+    if isinstance(es, dict):
+        es = es.get('divide')        # the scripted warning-raising operation is log(0): a divide-by-zero fault
     in_pass = {'ignore': 'ninf', 'raise': 'excfpe'}.get(es, 'warn')
     in_hook = {'ignore': None, 'raise': 'excfpe'}.get(es, 'warn')
     script = [tuple(in_pass if o == 'warn' else o for o in p) for p in case['script']]
@@ -313,7 +315,8 @@ def run_solve_t(Model, case):
     obs = {}
     import contextlib
     es = case.get('caller_errstate')
-    with warnings.catch_warnings(), (np.errstate(all=es) if es else contextlib.nullcontext()):
+    with warnings.catch_warnings(), ((np.errstate(**es) if isinstance(es, dict) else np.errstate(all=es)) if es else contextlib.nullcontext()):
+        obs['errstate_before'] = dict(np.geterr())
         # the caller's own warnings set-up (process-wide filters such as -W error) is none of the solver's business: the outcome is the same
         warnings.simplefilter(case.get('caller_filter') or 'ignore')
         try:
@@ -327,6 +330,7 @@ def run_solve_t(Model, case):
             obs['exc'] = type(e).__name__
             obs['cause'] = type(e.__cause__).__name__ if e.__cause__ is not None else None
             obs['msg'] = str(e)[:200]
+        obs['errstate_after'] = dict(np.geterr())
     log = m.__dict__['v_log']
     obs['status'] = str(m.status[tn])
     obs['iterations'] = int(m.iterations[tn])
@@ -374,6 +378,8 @@ def compare(case, want, obs):
         probs.append(('solved-flag', f'returned True with status {obs["status"]!r}'))
     if obs.get('kind') == 'ret' and obs['status'] == '.' and obs.get('ret') is not True:
         probs.append(('solved-flag', f'status "." but returned {obs.get("ret")!r}'))
+    if obs.get('errstate_after') != obs.get('errstate_before'):
+        probs.append(('process-wide-state-changed', f'the call left the caller\'s NumPy error state changed: {obs.get("errstate_before")} -> {obs.get("errstate_after")}'))
     changed = changed_cells(obs['before_state'], obs['after_state'])
     allowed = {('A', tn), ('B', tn), ('status', tn), ('iterations', tn)}
     if changed - allowed:
